@@ -157,3 +157,10 @@ package ice
 //@   site call Store#1 assert flips: arg1 == (a.isControlling == 0)
 //@   ensures an-unauthenticated-error-response-changes-nothing: !integ ==> unchangedExcept()
 //@   ensures an-error-response-that-matches-no-transaction-or-is-not-symmetric-keeps-the-role: !(integ && tx && sym) ==> a.isControlling == old(a.isControlling) && a.selector == old(a.selector)
+
+// Expiry only ever removes transactions: nothing is added, and nothing else of the agent changes.
+//@ func (*Agent).invalidatePendingBindingRequests
+//@   props C02 C06
+//@   modifies fam:H_ice.Agent.pendingBindingRequests*, fam:H_ice.bindingRequest.*, fam:E_*
+//@   loop 1 invariant kept-so-far-are-no-more-than-visited: len(temp) <= rangeindex + 1 && rangeindex < old(len(a.pendingBindingRequests))
+//@   ensures expiry-never-adds-a-transaction: len(a.pendingBindingRequests) <= old(len(a.pendingBindingRequests))
